@@ -43,7 +43,8 @@ def plan(tier, seed):
 def gen_scenario(rng: random.Random) -> Dict[str, Any]:
     variant = rng.choice(["none", "inject", "inject", "inject", "peer"])
     s = R.gen_service(rng, type_=rng.choice(["_http._tcp.local.", "_ipp._tcp.local."]), min_ttl=2)
-    s.name = rng.choice(["node", "My Printer", "dotted.name", "épsilon"]) + "." + s.type
+    # (instance labels of 61..63 bytes: a '-N' suffix may not fit into a label any more)
+    s.name = rng.choice(["node", "My Printer", "dotted.name", "épsilon", "node", "L" * 61, "é" * 31, "M" * 63]) + "." + s.type
     s.server = "host-h.local."
     # one registration in five leaves `server` at its default: the host name is then the instance name itself, and a rename
     # has to move the SRV target and the owner of the address records along with it
@@ -93,7 +94,7 @@ def run_scenario(res: Result, seed: int) -> None:
             zc = azc.zeroconf
             t_engine = sim.now_ms()
             inst = s.name[: -len(s.type) - 1]
-            taken = [s.name] + ["%s-%d.%s" % (inst, k, s.type) for k in range(2, 2 + sc["chain"])]
+            taken = [s.name] + ["%s-%d.%s" % (inst, k, s.type) for k in range(2, 2 + sc["chain"]) if len(("%s-%d" % (inst, k)).encode("utf-8")) <= 63]
             peer_azc = None
             if sc["variant"] == "peer":
                 peer = sim.net.add_host("P", "10.0.0.2")
@@ -240,11 +241,19 @@ def analyse(res: Result, sim: simnet.Sim, sc: Dict[str, Any], out: Dict[str, Any
     first_free = s.name
     if conflict_expected:
         k = 2
-        taken = {s.name} | {"%s-%d.%s" % (inst, j, s.type) for j in range(2, 2 + sc["chain"])}
+        taken = {s.name} | {"%s-%d.%s" % (inst, j, s.type) for j in range(2, 2 + sc["chain"]) if len(("%s-%d" % (inst, j)).encode("utf-8")) <= 63}
         while "%s-%d.%s" % (inst, k, s.type) in taken:
             k += 1
         first_free = "%s-%d.%s" % (inst, k, s.type)
-        if not sc["allow"]:
+        if sc["allow"] and len(("%s-%d" % (inst, k)).encode("utf-8")) > 63:
+            # the first free '-N' name is no legal name (instance label over 63 bytes): nothing to proceed under, the registration
+            # fails as a conflict and the caller's object keeps its name
+            res.cls("rename_impossible", "chain=%d" % sc["chain"])
+            if result != "nonunique" or final_name != s.name:
+                viol("c09.conflict", "wrong_name_after_conflict", "conflict (%s, chain %d) and the first free name %r is too long for a label: result %s name %r, expected "
+                     "NonUniqueNameException with the name unchanged" % (window, sc["chain"], first_free[:24] + "...", result, final_name[:24] + "..."), window=window, allow=True,
+                     rename_impossible=True)
+        elif not sc["allow"]:
             if result != "nonunique":
                 viol("c09.conflict", "conflict_not_detected", "conflict (%s) but registration of %s succeeded" % (window, final_name), window=window, allow=False)
         else:
